@@ -67,6 +67,10 @@ pub struct State {
     armed: bool,
     in_subject: bool,
     parity_odd: bool,
+    /// adjacent mode: crate-attributed align-1 blocks are carved back to back out of one arena (no header,
+    /// no red zone between them), so that code comparing addresses of unrelated buffers meets real adjacency
+    adjacent: bool,
+    arena_top: usize,
     oom_cap: usize,
     oom_hit: bool,
     seq: u32,
@@ -93,6 +97,8 @@ static G: Global = Global(UnsafeCell::new(State {
     armed: false,
     in_subject: false,
     parity_odd: false,
+    adjacent: false,
+    arena_top: 0,
     oom_cap: 1 << 31,
     oom_hit: false,
     seq: 0,
@@ -107,6 +113,27 @@ static G: Global = Global(UnsafeCell::new(State {
     vio: [0; 512],
     machinery_error: false,
 }));
+
+pub const ARENA_SIZE: usize = 1 << 17;
+#[repr(align(64))]
+struct Arena(UnsafeCell<[u8; ARENA_SIZE]>);
+unsafe impl Sync for Arena {}
+static ARENA: Arena = Arena(UnsafeCell::new([0; ARENA_SIZE]));
+#[inline]
+fn arena_base() -> usize {
+    ARENA.0.get() as usize
+}
+#[inline]
+fn in_arena(p: usize) -> bool {
+    p >= arena_base() && p < arena_base() + ARENA_SIZE
+}
+/// Switch adjacent mode on or off for the executions that follow.
+pub fn set_adjacent(on: bool) {
+    st().adjacent = on;
+}
+pub fn is_adjacent() -> bool {
+    st().adjacent
+}
 
 #[inline]
 fn st() -> &'static mut State {
@@ -164,6 +191,16 @@ unsafe impl GlobalAlloc for Oracle {
             sys::write_stderr(b"ORACLE-OOM-MARKER\n");
             return core::ptr::null_mut();
         }
+        if is_crate && align == 1 && s.adjacent && s.arena_top + size <= ARENA_SIZE && s.nblocks < MAX_BLOCKS {
+            let user = (arena_base() + s.arena_top) as *mut u8;
+            s.arena_top += size;
+            core::ptr::write_bytes(user, FILL_NEW, size);
+            s.seq += 1;
+            s.blocks[s.nblocks] = Block { user: user as usize, size, align, live: true, seq: s.seq, base: 0, total: 0, balign: 0 };
+            s.nblocks += 1;
+            log_event(s, Event { is_alloc: true, size, align, user: user as usize });
+            return user;
+        }
         let odd = is_crate && align == 1 && s.parity_odd;
         let balign = if align < 16 { 16 } else { align };
         let pad = if align > HDR { align } else { HDR } + if odd { 1 } else { 0 };
@@ -206,6 +243,56 @@ unsafe impl GlobalAlloc for Oracle {
 
     unsafe fn dealloc(&self, ptr: *mut u8, layout: Layout) {
         let s = st();
+        if in_arena(ptr as usize) {
+            // adjacent mode: the ledger is the only metadata
+            let p = ptr as usize;
+            let mut hit: Option<usize> = None;
+            for (i, b) in s.blocks[..s.nblocks].iter().enumerate() {
+                if b.base == 0 && b.user == p {
+                    hit = Some(i);
+                    if b.live {
+                        break;
+                    }
+                }
+            }
+            match hit {
+                Some(i) if s.blocks[i].live => {
+                    let b = s.blocks[i];
+                    if b.size != layout.size() || b.align != layout.align() {
+                        violate(format_args!(
+                            "free with wrong layout: block allocated with size={} align={}, freed with size={} align={}",
+                            b.size, b.align, layout.size(), layout.align()
+                        ));
+                    }
+                    s.blocks[i].live = false;
+                    core::ptr::write_bytes(ptr, FILL_FREED, b.size);
+                    log_event(s, Event { is_alloc: false, size: b.size, align: b.align, user: p });
+                }
+                Some(i) => {
+                    violate(format_args!(
+                        "double free of a block of size {} (freed again with size={} align={})",
+                        s.blocks[i].size, layout.size(), layout.align()
+                    ));
+                }
+                None => {
+                    let mut done = false;
+                    for b in s.blocks[..s.nblocks].iter() {
+                        if b.base == 0 && p > b.user && p < b.user + b.size.max(1) {
+                            violate(format_args!(
+                                "free of interior pointer: offset {} into a {} block of size {} (layout size={} align={})",
+                                p - b.user, if b.live { "live" } else { "freed" }, b.size, layout.size(), layout.align()
+                            ));
+                            done = true;
+                            break;
+                        }
+                    }
+                    if !done {
+                        violate(format_args!("free of a pointer that was never allocated (layout size={} align={})", layout.size(), layout.align()));
+                    }
+                }
+            }
+            return;
+        }
         let hdr = core::ptr::read_unaligned(ptr.sub(HDR) as *const Header);
         if hdr.magic == MAGIC_LIVE && hdr.canary == HCANARY {
             let size = hdr.size as usize;
@@ -302,6 +389,7 @@ pub fn begin_execution(parity_odd: bool) {
     s.armed = true;
     s.in_subject = false;
     s.parity_odd = parity_odd;
+    s.arena_top = if parity_odd { 1 } else { 0 };
     s.nblocks = 0;
     s.nevents = 0;
     s.events_overflow = false;
@@ -327,6 +415,25 @@ pub fn end_execution() -> EndReport {
     let n = s.nblocks;
     for i in 0..n {
         let b = s.blocks[i];
+        if b.base == 0 {
+            // arena block (adjacent mode): no canary, never returned to the system
+            if b.live {
+                rep.leaked.push((b.size, b.align));
+            } else {
+                unsafe {
+                    let p = b.user as *const u8;
+                    for k in 0..b.size {
+                        if *p.add(k) != FILL_FREED {
+                            if rep.corrupt.is_none() {
+                                rep.corrupt = Some(format!("write after free: byte {} of a freed block of size {} was modified", k, b.size));
+                            }
+                            break;
+                        }
+                    }
+                }
+            }
+            continue;
+        }
         unsafe {
             let p = b.user as *const u8;
             for k in 0..REAR {
@@ -372,7 +479,7 @@ pub fn flush_quarantine() -> Option<String> {
     let mut k = 0;
     for i in 0..s.nblocks {
         let b = s.blocks[i];
-        if b.live {
+        if b.live || b.base == 0 {
             s.blocks[k] = b;
             k += 1;
             continue;
@@ -467,6 +574,12 @@ pub fn blocks() -> &'static [Block] {
 /// Index (into `blocks()`) of the live crate block whose range [user, user+size] contains `addr`.
 pub fn find_live(addr: usize) -> Option<usize> {
     let s = st();
+    // strictly inside first (adjacent blocks share their boundary address), then one-past-the-end
+    for (i, b) in s.blocks[..s.nblocks].iter().enumerate() {
+        if b.live && addr >= b.user && addr < b.user + b.size {
+            return Some(i);
+        }
+    }
     for (i, b) in s.blocks[..s.nblocks].iter().enumerate() {
         if b.live && addr >= b.user && addr <= b.user + b.size {
             return Some(i);
@@ -478,6 +591,11 @@ pub fn find_live(addr: usize) -> Option<usize> {
 /// Index of any (live or freed) crate block containing `addr`.
 pub fn find_any(addr: usize) -> Option<usize> {
     let s = st();
+    for (i, b) in s.blocks[..s.nblocks].iter().enumerate() {
+        if addr >= b.user && addr < b.user + b.size {
+            return Some(i);
+        }
+    }
     for (i, b) in s.blocks[..s.nblocks].iter().enumerate() {
         if addr >= b.user && addr <= b.user + b.size {
             return Some(i);
@@ -525,6 +643,19 @@ pub fn find_region(addr: usize) -> Option<Region> {
 pub fn check_canaries() -> Option<String> {
     let s = st();
     for b in s.blocks[..s.nblocks].iter() {
+        if b.base == 0 {
+            if !b.live {
+                unsafe {
+                    let p = b.user as *const u8;
+                    for k in 0..b.size {
+                        if *p.add(k) != FILL_FREED {
+                            return Some(format!("write after free: byte {} of a freed block of size {} was modified", k, b.size));
+                        }
+                    }
+                }
+            }
+            continue;
+        }
         unsafe {
             let p = b.user as *const u8;
             for k in 0..REAR {
